@@ -130,6 +130,7 @@ static void run_once(const vcase *c, void *work, long lwork, outcome *O, xs *kee
         if ((long)s->Glu.nzlmax > init) WK_COUNT(C_XLS);
     }
     if (s->info >= 0 && s->info <= c->n && s->have_LU) {
+        if (!r->status) o_glu_storage(s, r);
         O->ok = 1; O->h = hash_LU(T, &s->L, &s->U);
         memcpy(O->perm_r, s->perm_r, sizeof(int) * c->n); memcpy(O->perm_c, s->perm_c, sizeof(int) * c->n); memcpy(O->etree, s->etree, sizeof(int) * c->n);
         O->expansions = s->stat.expansions; O->nnzL = (long)((SCformat *)s->L.Store)->nnz; O->nnzU = (long)((NCformat *)s->U.Store)->nnz;
